@@ -99,6 +99,8 @@ where
     // only allow each counter to be zeroed once per trigger_events call
     counter_zeroed_once: (bool, bool),
     framework_start: T,
+    #[cfg(feature = "verif")]
+    verif_log: Option<Vec<crate::verif::Rec<T>>>,
 }
 
 impl<M, R, T> Framework<M, R, T>
@@ -169,6 +171,8 @@ where
             normal_sent_packets: 0,
             signal_pending: None,
             counter_zeroed_once: (false, false),
+            #[cfg(feature = "verif")]
+            verif_log: None,
         };
 
         for (runtime, machine) in s.runtime.iter_mut().zip(s.machines.as_ref().iter()) {
@@ -210,6 +214,10 @@ where
     ) -> impl Iterator<Item = &TriggerAction<T>> {
         // reset all actions
         self.actions.fill(None);
+        #[cfg(feature = "verif")]
+        self.verif_rec(|| crate::verif::Rec::Call {
+            num_events: events.len(),
+        });
 
         // reset flags for zeroed counters (allowed to zero once per call)
         self.counter_zeroed_once = (false, false);
@@ -233,6 +241,8 @@ where
                 SignalTarget::All => None,
                 SignalTarget::AllExcept(excluded) => Some(excluded),
             };
+            #[cfg(feature = "verif")]
+            self.verif_rec(|| crate::verif::Rec::Signal { round: 1, excluded });
 
             // signal all machines, except the excluded one
             for mi in 0..self.runtime.len() {
@@ -250,6 +260,11 @@ where
             // another machine)
             if self.signal_pending.take().is_some() {
                 if let Some(excluded) = excluded {
+                    #[cfg(feature = "verif")]
+                    self.verif_rec(|| crate::verif::Rec::Signal {
+                        round: 2,
+                        excluded: Some(excluded),
+                    });
                     self.transition(excluded, Event::Signal);
                 }
             }
@@ -260,6 +275,8 @@ where
     }
 
     fn process_event(&mut self, e: &TriggerEvent) {
+        #[cfg(feature = "verif")]
+        self.verif_rec(|| crate::verif::Rec::Event { event: e.clone() });
         match e {
             TriggerEvent::NormalRecv => {
                 // no special accounting needed
@@ -372,6 +389,13 @@ where
     fn transition(&mut self, mi: usize, event: Event) -> StateChange {
         // a machine in end state cannot transition
         if self.runtime[mi].current_state == STATE_END {
+            #[cfg(feature = "verif")]
+            self.verif_rec(|| crate::verif::Rec::Trans {
+                machine: mi,
+                event,
+                from: STATE_END,
+                outcome: crate::verif::Outcome::Ended,
+            });
             return StateChange::Unchanged;
         }
 
@@ -382,6 +406,19 @@ where
             let state = &machine.states[self.runtime[mi].current_state];
             state.sample_state(event, &mut self.rng)
         };
+        #[cfg(feature = "verif")]
+        {
+            let from = self.runtime[mi].current_state;
+            self.verif_rec(|| crate::verif::Rec::Trans {
+                machine: mi,
+                event,
+                from,
+                outcome: match next_state {
+                    Some(to) => crate::verif::Outcome::To(to),
+                    None => crate::verif::Outcome::NoTransition,
+                },
+            });
+        }
 
         // if no next state on event, done
         let Some(next_state) = next_state else {
@@ -421,6 +458,15 @@ where
                     } else {
                         STATE_LIMIT_MAX
                     };
+                    #[cfg(feature = "verif")]
+                    {
+                        let limit = self.runtime[mi].state_limit;
+                        self.verif_rec(|| crate::verif::Rec::Limit {
+                            machine: mi,
+                            state: next_state,
+                            limit,
+                        });
+                    }
                 }
 
                 // update the counter, possible recursion: we need to update the
@@ -438,6 +484,19 @@ where
                 if allow_schedule && below_limits {
                     self.schedule_action(mi, next_state);
                 }
+                #[cfg(feature = "verif")]
+                {
+                    let slot = self.actions[mi].clone();
+                    let changed = !(curr_state == self.runtime[mi].current_state && !state_changed);
+                    self.verif_rec(|| crate::verif::Rec::After {
+                        machine: mi,
+                        state: next_state,
+                        allow: allow_schedule,
+                        below: below_limits,
+                        slot,
+                        changed,
+                    });
+                }
 
                 if curr_state == self.runtime[mi].current_state && !state_changed {
                     StateChange::Unchanged
@@ -454,6 +513,8 @@ where
         let old_value_a = self.runtime[mi].counter_a;
         let old_value_b = self.runtime[mi].counter_b;
         let mut any_counter_zeroed = false;
+        #[cfg(feature = "verif")]
+        let (mut verif_a, mut verif_b) = (None, None);
 
         // counter A and B are independent, so we update them separately
         if let Some(counter_a) = state.counter.0 {
@@ -479,6 +540,16 @@ where
             if old_value_a != 0 && *updated_value_a == 0 && !self.counter_zeroed_once.0 {
                 any_counter_zeroed = true;
                 self.counter_zeroed_once.0 = true;
+            }
+            #[cfg(feature = "verif")]
+            {
+                verif_a = Some(crate::verif::CtrRec {
+                    operation: counter_a.operation,
+                    copy: counter_a.copy,
+                    value: change,
+                    old: old_value_a,
+                    new: *updated_value_a,
+                });
             }
         }
 
@@ -506,8 +577,25 @@ where
                 any_counter_zeroed = true;
                 self.counter_zeroed_once.1 = true;
             }
+            #[cfg(feature = "verif")]
+            {
+                verif_b = Some(crate::verif::CtrRec {
+                    operation: counter_b.operation,
+                    copy: counter_b.copy,
+                    value: change,
+                    old: old_value_b,
+                    new: *updated_value_b,
+                });
+            }
         }
 
+        #[cfg(feature = "verif")]
+        self.verif_rec(|| crate::verif::Rec::Counter {
+            machine: mi,
+            a: verif_a,
+            b: verif_b,
+            zeroed: any_counter_zeroed,
+        });
         if any_counter_zeroed {
             let state_changed = self.transition(mi, Event::CounterZero);
             return (
@@ -562,6 +650,19 @@ where
             self.runtime[mi].state_limit -= 1;
         }
         let cs = self.runtime[mi].current_state;
+        #[cfg(feature = "verif")]
+        {
+            let limit = self.runtime[mi].state_limit;
+            let raise = match self.machines.as_ref()[mi].states[cs].action {
+                Some(action) => limit == 0 && action.has_limit(),
+                None => false,
+            };
+            self.verif_rec(|| crate::verif::Rec::Decrement {
+                machine: mi,
+                limit,
+                raise,
+            });
+        }
 
         if let Some(action) = self.machines.as_ref()[mi].states[cs].action {
             if self.runtime[mi].state_limit == 0 && action.has_limit() {
@@ -680,6 +781,61 @@ where
 
         // only state-limit left to consider
         runtime.state_limit > 0
+    }
+}
+
+#[cfg(feature = "verif")]
+impl<M, R, T> Framework<M, R, T>
+where
+    M: AsRef<[Machine]>,
+    R: RngCore,
+    T: crate::time::Instant,
+{
+    /// Start recording internal steps (see [`crate::verif`]).
+    pub fn verif_enable(&mut self) {
+        self.verif_log = Some(Vec::new());
+    }
+
+    /// Drain the records made since the last call.
+    pub fn verif_take(&mut self) -> Vec<crate::verif::Rec<T>> {
+        match self.verif_log.as_mut() {
+            Some(log) => std::mem::take(log),
+            None => Vec::new(),
+        }
+    }
+
+    /// A read-only copy of the internal state.
+    pub fn verif_snapshot(&self) -> crate::verif::Snapshot<T> {
+        crate::verif::Snapshot {
+            machines: self
+                .runtime
+                .iter()
+                .map(|r| crate::verif::MachineSnapshot {
+                    current_state: r.current_state,
+                    state_limit: r.state_limit,
+                    padding_sent: r.padding_sent,
+                    normal_sent: r.normal_sent,
+                    blocking_duration: r.blocking_duration,
+                    counter_a: r.counter_a,
+                    counter_b: r.counter_b,
+                })
+                .collect(),
+            normal_sent_packets: self.normal_sent_packets,
+            padding_sent_packets: self.padding_sent_packets,
+            blocking_duration: self.blocking_duration,
+            blocking_active: self.blocking_active,
+            signal_pending: match self.signal_pending {
+                None => 0,
+                Some(SignalTarget::All) => 1,
+                Some(SignalTarget::AllExcept(i)) => 2 + i,
+            },
+        }
+    }
+
+    fn verif_rec(&mut self, f: impl FnOnce() -> crate::verif::Rec<T>) {
+        if let Some(log) = self.verif_log.as_mut() {
+            log.push(f());
+        }
     }
 }
 
